@@ -162,3 +162,31 @@ func (fe *FuncEnc) effectE2(f *Frame, stubName string, st *State, path Term, pos
 	fe.emit("effect.E2", fe.srcLabel(pos, "call"), path, tNot(flag), "C06: nothing is written to stdout once a runtime error has been reported", pos)
 	fe.obls[len(fe.obls)-1].Props = []string{"C06"}
 }
+
+// nondetMapRange: C13 — Go leaves the iteration order of a map unspecified (and randomises it).  Every range over a map is
+// an obligation that can only be discharged by an `orderfree` declaration on the loop, which must name the contract clauses
+// that make the outcome independent of the order (they are proved like any other clause; the independence argument itself
+// is listed as an assumption).
+func (fe *FuncEnc) nondetMapRange(f *Frame, x *ssa.Range, path Term) {
+	if f.parent != nil {
+		return
+	}
+	ci := analyzeCFG(f.fn)
+	var lc *LoopContract
+	for _, li := range ci.loops {
+		for _, in := range li.header.Instrs {
+			if nx, ok := in.(*ssa.Next); ok && nx.Iter == ssa.Value(x) {
+				lc = fe.loopContract(f, li)
+			}
+		}
+	}
+	label := fe.srcLabel(x.Pos(), "index")
+	if lc != nil && lc.OrderFree != "" {
+		fe.obls = append(fe.obls, &Obl{Name: fe.name + "/nondet.maprange:" + label, Func: fe.name, Kind: "nondet.maprange", Label: label, Pos: len(fe.items),
+			Goal: tBool(true), Clause: "orderfree: " + lc.OrderFree, SrcPos: fe.eng.relPos(x.Pos()), fe: fe, Status: "unsat", Solver: "declared", Props: []string{"C13"}})
+		fe.assumes["map range at "+fe.eng.relPos(x.Pos())+" declared order-independent: "+lc.OrderFree] = true
+		return
+	}
+	fe.emit("nondet.maprange", label, path, tBool(false), "C13: the iteration order of a Go map is unspecified; the outcome of this loop must be shown not to depend on it", x.Pos())
+	fe.obls[len(fe.obls)-1].Props = []string{"C13"}
+}
